@@ -34,6 +34,7 @@ import (
 	"github.com/prometheus/common/promslog"
 	"github.com/prometheus/prometheus/model/labels"
 	"github.com/prometheus/prometheus/tsdb"
+	"github.com/prometheus/prometheus/tsdb/chunkenc"
 	"github.com/prometheus/prometheus/tsdb/index"
 
 	"github.com/thanos-io/objstore"
@@ -364,17 +365,31 @@ func vfc35BuildBlock(parent string, rng *rand.Rand, wantSegs, level int, mint, m
 		}
 		_ = os.RemoveAll(headOpts.ChunkDirRoot)
 	}()
-	nSeries := 3*wantSegs + rng.Intn(4)
-	nSamples := 30 + rng.Intn(90)
+	// all series have the same number (<= 110: one chunk) of random float samples; the size of one series is
+	// computed with the same XOR encoder and the segment size chosen so that perSeg series fit into one file.
+	perSeg := 2 + rng.Intn(2)
+	nSeries := wantSegs * perSeg
+	nSamples := 30 + rng.Intn(80)
 	step := (maxt - mint) / int64(nSamples+1)
+	var oneSeries int64
 	app := h.Appender(ctx)
 	for s := 0; s < nSeries; s++ {
 		lset := labels.FromStrings("__name__", "vf_metric", "series", strconv.Itoa(s))
+		xc := chunkenc.NewXORChunk()
+		xa, err := xc.Appender()
+		if err != nil {
+			return blk, err
+		}
 		for i := 0; i < nSamples; i++ {
-			if _, err := app.Append(0, lset, mint+int64(i)*step, rng.Float64()); err != nil {
+			v := rng.Float64()
+			if _, err := app.Append(0, lset, mint+int64(i)*step, v); err != nil {
 				_ = app.Rollback()
 				return blk, errors.Wrap(err, "append")
 			}
+			xa.Append(mint+int64(i)*step, v)
+		}
+		if n := int64(len(xc.Bytes())) + 10; n > oneSeries {
+			oneSeries = n
 		}
 	}
 	if err := app.Commit(); err != nil {
@@ -396,34 +411,23 @@ func vfc35BuildBlock(parent string, rng *rand.Rand, wantSegs, level int, mint, m
 		des, err := os.ReadDir(filepath.Join(parent, ids[0].String(), block.ChunksDirname))
 		return ids[0], des, err
 	}
-	id, des, err := write(0)
+	seg := 8 + int64(perSeg)*oneSeries + oneSeries/2
+	if wantSegs == 1 {
+		seg = 8 + int64(nSeries+2)*oneSeries + 4096
+	}
+	id, des, err := write(seg)
 	if err != nil {
 		return blk, errors.Wrap(err, "write block")
 	}
-	if wantSegs > 1 {
-		fi, err := des[0].Info()
-		if err != nil {
-			return blk, err
+	for try := 0; try < 3 && (len(des) < 1 || len(des) > 3); try++ {
+		_ = os.RemoveAll(filepath.Join(parent, id.String()))
+		seg += oneSeries
+		if id, des, err = write(seg); err != nil {
+			return blk, errors.Wrap(err, "write block")
 		}
-		payload := fi.Size() - 8
-		seg := payload/int64(wantSegs) + 8 + 24
-		for try := 0; try < 6; try++ {
-			_ = os.RemoveAll(filepath.Join(parent, id.String()))
-			if id, des, err = write(seg); err != nil {
-				return blk, errors.Wrap(err, "write block")
-			}
-			if len(des) == wantSegs {
-				break
-			}
-			if len(des) > wantSegs {
-				seg += payload / int64(wantSegs*6)
-			} else {
-				seg -= payload / int64(wantSegs*8)
-			}
-		}
-		if len(des) < 1 || len(des) > 3 {
-			return blk, errors.Errorf("could not get 1..3 segment files (got %d)", len(des))
-		}
+	}
+	if len(des) < 1 || len(des) > 3 {
+		return blk, errors.Errorf("could not get 1..3 segment files (got %d)", len(des))
 	}
 	blk = vfc35Blk{ID: id, Level: level, Segs: len(des), Kind: "data"}
 	if level > 1 {
@@ -547,6 +551,49 @@ type vfc35Case struct {
 	trace      []string
 	fired      map[string]bool
 	eligibleOK int
+}
+
+// vfc35Snap is the durable state after a step of the fault-free history: replays of a later step start from it.
+type vfc35Snap struct {
+	shipperFile []byte // nil: no thanos.shipper.json
+	objs        map[string][]byte
+	metaLabels  map[string]string
+}
+
+func (cs *vfc35Case) snapshot() vfc35Snap {
+	sn := vfc35Snap{objs: cs.inner.Objects(), metaLabels: map[string]string{}}
+	if raw, err := os.ReadFile(filepath.Join(cs.tsdb, DefaultMetaFilename)); err == nil {
+		sn.shipperFile = raw
+	}
+	cs.lmu.Lock()
+	for k, v := range cs.metaLabels {
+		sn.metaLabels[k] = v
+	}
+	cs.lmu.Unlock()
+	return sn
+}
+
+// restore re-creates directory, shipper file and bucket as they were after step upTo-1 of the fault-free history.
+func (cs *vfc35Case) restore(upTo int, sn vfc35Snap) {
+	for si := 0; si < upTo; si++ {
+		cs.applyStep(cs.steps[si])
+	}
+	if sn.shipperFile != nil {
+		if err := os.WriteFile(filepath.Join(cs.tsdb, DefaultMetaFilename), sn.shipperFile, 0o644); err != nil {
+			cs.fatal("%v", err)
+		}
+	}
+	for k, v := range sn.objs {
+		if err := cs.inner.Upload(context.Background(), k, bytes.NewReader(v)); err != nil {
+			cs.fatal("%v", err)
+		}
+	}
+	cs.lmu.Lock()
+	for k, v := range sn.metaLabels {
+		cs.metaLabels[k] = v
+	}
+	cs.lmu.Unlock()
+	cs.note("state after step %d of the fault-free history restored (%d bucket objects, shipper file present=%v)", upTo-1, len(sn.objs), sn.shipperFile != nil)
 }
 
 type vfc35Proc struct {
@@ -852,13 +899,24 @@ func (cs *vfc35Case) checkAfterSuccess(when string) {
 
 // runHistory replays the history; at step faultStep (0-based; -1 = none) the Sync runs with fault f.
 // Returns the operation log of every first Sync per step (fault-free replay only) for the enumeration.
-func (cs *vfc35Case) runHistory(faultStep int, f vfc35Fault, secondCrash *vfc35Fault) (opsPerStep [][]vfc35Op, injected *vfc35Op, succeededAfterFault bool) {
+func (cs *vfc35Case) runHistory(faultStep int, f vfc35Fault, secondCrash *vfc35Fault, snaps []vfc35Snap, continueAfter bool) (opsPerStep [][]vfc35Op, newSnaps []vfc35Snap, injected *vfc35Op, succeededAfterFault bool) {
 	cs.reset()
 	defer cs.reap()
+	first := 0
+	if faultStep > 0 {
+		first = faultStep
+		cs.restore(faultStep, snaps[faultStep-1])
+	}
 	proc := cs.newProc()
 	defer func() { proc.close() }()
 	succeededAfterFault = true
 	for si, st := range cs.steps {
+		if si < first {
+			continue
+		}
+		if faultStep >= 0 && si > faultStep && !continueAfter {
+			break
+		}
 		cs.applyStep(st)
 		cs.note("step %d: blocks %v appear, labels {%s}", si, st.Appear, vfc35LabelString(st.Labels))
 		when := fmt.Sprintf("step %d", si)
@@ -866,6 +924,9 @@ func (cs *vfc35Case) runHistory(faultStep int, f vfc35Fault, secondCrash *vfc35F
 			err, _ := proc.sync(vfc35Fault{})
 			opsPerStep = append(opsPerStep, proc.bkt.opLog())
 			cs.note("%s: Sync (no fault) -> %v", when, err)
+			if faultStep < 0 {
+				newSnaps = append(newSnaps, cs.snapshot())
+			}
 			cs.checkRecorded(when + " after Sync")
 			if err == nil {
 				cs.checkAfterSuccess(when + " after Sync returned nil")
@@ -921,7 +982,7 @@ func (cs *vfc35Case) runHistory(faultStep int, f vfc35Fault, secondCrash *vfc35F
 			}
 		}
 	}
-	return opsPerStep, injected, succeededAfterFault
+	return opsPerStep, newSnaps, injected, succeededAfterFault
 }
 
 // expectSuccess: with a corrupted local block Sync never returns nil by design.
@@ -1020,11 +1081,11 @@ func TestVF_C35(t *testing.T) {
 	r := vfkit.Start(t, "C35")
 	defer r.Finish()
 	r.Rule("case = a shipper directory with 1..5 real TSDB blocks (1..3 segment files; levels 1..3; possibly one block without samples and, with skip-corrupted, one directory without meta.json) x options (upload-compacted, allow-out-of-order, upload concurrency 0|1|4, hash func) x a history of 1..3 steps (blocks appear, external labels may change, Sync); " +
-		"the fault-free history is run first; then for EVERY step and EVERY bucket operation k of that step's Sync the history is replayed with a fault at k (crash = the Sync's goroutines are frozen inside op k and a new Shipper starts on the same directory and bucket; fail-stop lost|applied + restart; fail-once lost|applied, same Shipper), followed by up to 3 Syncs and the rest of the history; thorough adds a second crash inside the first restart Sync; " +
+		"the fault-free history is run first; then for EVERY step and EVERY bucket operation k of that step's Sync the history is replayed with a fault at k (crash = the Sync's goroutines are frozen inside op k and a new Shipper starts on the same directory and bucket; fail-stop lost|applied + restart; fail-once lost|applied, same Shipper - in quick only with allow-out-of-order, where Sync goes on after a failed block), followed by up to 3 Syncs and (quick: in a third of the replays; thorough: always) the rest of the history; replays of a later step start from the recorded durable state (directory, thanos.shipper.json, bucket) of the fault-free history; thorough adds a second crash inside the first restart Sync; " +
 		"oracle (own JSON reading of local meta.json, thanos.shipper.json and the in-memory bucket): after EVERY Sync and crash thanos.shipper.json lists only blocks whose meta.json is in the bucket with every listed file at its recorded size; after every Sync that returned nil each local block with samples and (level 1 or upload-compacted) has meta.json, every listed file, byte-identical index and chunk segments, and exactly the external labels the shipper had when that meta.json was uploaded; " +
 		"evaluation = one such check; distinct = (case, step, k, fault mode) where the fault was really injected and a later Sync returned nil with >= 1 eligible block verified")
-	n := r.N(14, 400)
-	r.Require(int64(n)*150, n*25)
+	n := r.N(10, 150)
+	r.Require(int64(n)*100, n*15)
 	r.Assume("'current external labels' = the labels the shipper had when it uploaded the block's meta.json (uploaded blocks are immutable; a later label change cannot and need not reach them)")
 	r.Assume("local blocks are Prometheus blocks without a thanos section; block time ranges do not overlap (otherwise the overlap check legitimately refuses compacted blocks)")
 	r.Assume("crash points are bucket operations; a crash between two local file-system steps of Sync with no bucket operation in between is represented by the nearest bucket operation only")
@@ -1045,7 +1106,7 @@ func TestVF_C35(t *testing.T) {
 
 func vfc35RunCase(cs *vfc35Case, rng *rand.Rand) {
 	r := cs.r
-	baseOps, _, _ := cs.runHistory(-1, vfc35Fault{}, nil)
+	baseOps, snaps, _, _ := cs.runHistory(-1, vfc35Fault{}, nil, nil, true)
 	total := 0
 	for _, o := range baseOps {
 		total += len(o)
@@ -1059,9 +1120,19 @@ func vfc35RunCase(cs *vfc35Case, rng *rand.Rand) {
 	for si := range cs.steps {
 		ops := baseOps[si]
 		for k := 1; k <= len(ops); k++ {
-			modes := []vfc35Fault{{At: k, Freeze: true}, {At: k, Stop: true}, {At: k}}
+			// without allow-out-of-order Sync returns at the first failed operation, so a transient failure takes
+			// the same path as fail-stop; the fail-once modes are enumerated where Sync goes on after a failure
+			// (and always in the thorough tier)
+			once := cs.cfg.AllowOOO || r.Thorough()
+			modes := []vfc35Fault{{At: k, Freeze: true}, {At: k, Stop: true}}
+			if once {
+				modes = append(modes, vfc35Fault{At: k})
+			}
 			if ops[k-1].Mut {
-				modes = append(modes, vfc35Fault{At: k, Stop: true, Applied: true}, vfc35Fault{At: k, Applied: true})
+				modes = append(modes, vfc35Fault{At: k, Stop: true, Applied: true})
+				if once {
+					modes = append(modes, vfc35Fault{At: k, Applied: true})
+				}
 			}
 			for _, f := range modes {
 				var second *vfc35Fault
@@ -1069,7 +1140,7 @@ func vfc35RunCase(cs *vfc35Case, rng *rand.Rand) {
 					second = &vfc35Fault{At: 1 + rng.Intn(len(ops)+2), Freeze: rng.Intn(2) == 0}
 					second.Stop = !second.Freeze
 				}
-				_, inj, ok := cs.runHistory(si, f, second)
+				_, _, inj, ok := cs.runHistory(si, f, second, snaps, r.Thorough() || rng.Intn(3) == 0)
 				r.Count("histories_with_fault", 1)
 				if inj == nil {
 					r.Count("fault_not_reached", 1)
